@@ -148,9 +148,10 @@ def arm_paths(F, entry, join_preds, limit=40):
 
 
 class Resolver:
-    def __init__(self, F, path, fields, promoted=None):
+    def __init__(self, F, path, fields, promoted=None, mir=None):
         self.F, self.path, self.fields = F, path, fields
         self.promoted = promoted or {}
+        self.mir = mir
 
     def pick(self, local):
         ds = self.F.defs.get(local, [])
@@ -239,6 +240,17 @@ class Resolver:
                 return ("UNWRAP_OR", self.sem(args[0]), self.sem(args[1]))
             if name == "Option::unwrap_or_default":
                 return ("UNWRAP_OR", self.sem(args[0]), ("K", 0))
+            if name == "Option::unwrap_or_else" and self.mir is not None:
+                # a closure whose body is a single getter call on the state
+                m = re.search(r"(\{closure@[^}]*\})", t[3])
+                if m:
+                    for g in self.mir.fns:
+                        if g.params and g.params[0][1].strip() == m.group(1):
+                            calls = [CALL_RE.match(s_) for st in g.blocks.values() for s_ in st if CALL_RE.match(s_)]
+                            if len(calls) == 1 and calls[0].group(1).strip() == "_0":
+                                inner = re.sub(r"::<.*?>", "", calls[0].group(2).strip())
+                                if inner == "ProgressState::pos":
+                                    return ("UNWRAP_OR", self.sem(args[0]), ("POS",))
             if name == "TabExpandedString::expanded":
                 a = args[0]
                 if a[0] == "FIELDREF" and a[1] == ("STATE",):
@@ -534,7 +546,7 @@ def run(tier, logdir):
             paths = arm_paths(F, A[key], None)
             problems = []
             for path in paths:
-                R = Resolver(F, path, fields, promoted)
+                R = Resolver(F, path, fields, promoted, mir)
                 stmts = [s for bb in path for s in F.blocks.get(bb, [])]
                 ev = None
                 for s in stmts:
